@@ -80,7 +80,7 @@ func main() {
 			sc := sc
 			m := parseMode(os.Args[3])
 			sc.Mode = os.Args[3]
-			ex := engine.NewExplorer(sc.execFn(), engine.Opts{P: m.P, M: m.M, Unbounded: m.Unbounded, MaxExecs: max})
+			ex := engine.NewExplorer(sc.execFn(), engine.Opts{P: m.P, M: m.M, Unbounded: m.Unbounded, Delay: m.Delay, MaxExecs: max})
 			t0 := time.Now()
 			ex.Subtree(nil)
 			fmt.Fprintf(engine.ProtoOut(), "%-32s mode=%s execs=%d states=%d trans=%d hits=%d maxpoints=%d outcomes=%d capped=%v %.1fs\n", sc.Name, os.Args[3], ex.St.Execs, ex.St.States, ex.St.Transitions, ex.St.CacheHits, ex.St.MaxPoints, len(ex.St.Outcomes), ex.St.Capped, time.Since(t0).Seconds())
